@@ -23,11 +23,15 @@ PROPS = {
                 partial='proved: Spec.C07.bounds for every request of the cycle, and no-shrink when max-idle-time = 0; keepsNeeded (scale-down never removes a needed shard) and no-shrink under need-space are monitored on implementation and model outcomes, theorem pending'),
     'C08': dict(engine='coord', module='Kvass.Props.C08', assumptions=COORD_ASSUME,
                 partial='proved: leftAlone, noNeedlessPush, noUpdates for every schedule; noSecondAssign and dstInSync (destination of a move is in sync) are monitored on implementation and model outcomes, theorem pending'),
+    'C18': dict(engine='k8s', module='Kvass.Props.C18',
+                assumptions=['client-go fake clientset stands in for the API server; pod names are <sts>-<ordinal>'],
+                partial='none for the stated clauses: exact deleted-claim set, replica count / no-op, ordinal order, rolling-update skip are theorems; readiness wait (2 min timer) is not part of the property'),
     'C04': dict(engine='coord', module='Kvass.Props.C04', assumptions=COORD_ASSUME,
                 partial='theorem is stated on the ghost placement log (running load at placement time); the observable form Spec.C04.ok is monitored on every implementation outcome and on every enumerated model outcome'),
 }
 
 LEVEL_TEXT = {
+    'C18': 'Machine-checked theorems (Lean 4) for all current/requested counts, template numbers and flags (Int/Nat, unbounded): a claim is deleted iff deletion is on and requested <= ordinal < current; exact replica count; no-op when unchanged; listing in ordinal order for every pod order. Loop bounds, conditions and name formats are regenerated from shardmanager.go on every run; the model is compared with the real package on a fake clientset exhaustively over [0,6]^2.',
     'C01': 'Machine-checked theorems (Lean 4): the monitored predicate Spec.C01.ok holds of the observable outcome of Coord.cycle for every schedule (map orders, random picks), every seriesWithRate and every input; the model calls decision expressions regenerated from the Go source on every run and is validated against the real coordinator on every run.',
     'C05': 'Machine-checked theorems (Lean 4): the hand-over threshold extracted from the source equals the documented 3, and no in-sync shard loses a discovered target unless it and a remaining holder have scraped it 3 times (Spec.C05.removal) for every schedule and input; move-step clause monitored.',
     'C07': 'Machine-checked theorems (Lean 4): every ChangeScale argument of a cycle lies in [min,max]; no request below the current count when max-idle-time = 0; remaining clauses monitored on the real coordinator and on all enumerated model outcomes.',
@@ -42,5 +46,9 @@ NOT_APPLICABLE = {
     'C09': 'check under construction', 'C10': 'check under construction', 'C11': 'check under construction',
     'C12': 'check under construction', 'C13': 'check under construction', 'C14': 'check under construction',
     'C15': 'check under construction', 'C16': 'check under construction', 'C17': 'check under construction',
-    'C18': 'check under construction', 'C19': 'check under construction', 'C20': 'check under construction',
+    'C19': 'check under construction', 'C20': 'check under construction',
 }
+
+ENGINES = [
+    {'name': 'k8s', 'path': 'harness/cmd/kvh/k8s.go', 'kind_free_text': 'real pkg/shard/kubernetes on a client-go fake clientset; scale cases exhaustive over small counts, shard listings random permutations'},
+]
